@@ -11,10 +11,11 @@ A functional is a `|`-separated PREFIX token list, e.g. `lscal|3/2|trans|1,2,3|l
   compmat|M|Mt|F (MatrixOperator; Mt = matrix of the live `op.adjoint`)
   compscale|s|F (ScalingOperator)   compmul|v|F (MultiplyOperator)
   comppow|p|F   (PowerOperator x^p, derivative(x).adjoint(y) = p x^(p-1) * y)
-  menv|σ|F      (MoreauEnvelope; F ∈ {l1, l2sq}: prox = soft threshold / x/(1+2σ))
+  menv|σ|F      (MoreauEnvelope; F ∈ {l1, l2sq}: prox = C07's coded `softCode` / `l2sqCode`)
 -/
 import OdlModel.Common
 import OdlModel.Model.Functionals
+import OdlModel.Model.Prox
 namespace OdlModel.Functionals
 open OdlModel
 
@@ -126,8 +127,9 @@ def parseFn (n : Nat) (needInv : Bool) : Nat → List String → Option (QFn × 
         if σ ≤ 0 then none
         let (f, r') ← parseFn n needInv fuel r
         match f with
-        | .coord .l1 => some (.menv f (List.map (softThr σ)) σ, r')
-        | .l2sq => some (.menv f (List.map (· / (1 + 2 * σ))) σ, r')
+        -- the proximals are C07's coded formulas (`ProximalL1`, `ProximalL2Squared`, no data term)
+        | .coord .l1 => some (.menv f (List.map (fun x => OdlModel.Prox.softCode σ x 0)) σ, r')
+        | .l2sq => some (.menv f (List.map (fun x => OdlModel.Prox.l2sqCode 1 σ x 0)) σ, r')
         | _ => none
     | _ => none
 
